@@ -36,10 +36,21 @@ def workdir(prop):
     return d
 
 
+# The library under test: /repo.  VERIF_REPO (used only by bin/seedeval.py, from a scratch copy of /verif) points the
+# harness at a scratch checkout that carries a seeded change, so that /repo itself is never modified.
+REPO = os.environ.get("VERIF_REPO", "/repo")
+
+
 def build(cmds, race=False):
     """(Re)build the named harness commands from /repo's current working tree with the verif tag."""
     os.makedirs(HBIN, exist_ok=True)
-    shutil.copy("/repo/go.sum", os.path.join(HARNESS, "go.sum"))
+    shutil.copy(os.path.join(REPO, "go.sum"), os.path.join(HARNESS, "go.sum"))
+    if REPO != "/repo":
+        gm = os.path.join(HARNESS, "go.mod")
+        txt = open(gm).read()
+        new = re.sub(r"(replace github.com/taurusgroup/multi-party-sig => )\S+", lambda m: m.group(1) + REPO, txt)
+        if new != txt:
+            open(gm, "w").write(new)
     for c in cmds:
         out = os.path.join(HBIN, c + ("-race" if race else ""))
         args = ["go", "build", "-tags", "verif"] + (["-race"] if race else []) + ["-o", out, "./cmd/" + c]
